@@ -118,6 +118,11 @@ func goArrayEnumerate(obj *object, all bool, each func(string) bool) {
 }
 
 func goArrayDefineOwnProperty(obj *object, name string, descriptor property, throw bool) bool {
+	if _, isData := descriptor.value.(Value); !isData && stringToArrayIndex(name) >= 0 {
+		// Elements live in the Go array: they cannot become accessors and a
+		// descriptor without a value has nothing to store.
+		return obj.runtime.typeErrorResult(throw)
+	}
 	if name == propertyLength {
 		return obj.runtime.typeErrorResult(throw)
 	} else if index := stringToArrayIndex(name); index >= 0 {
